@@ -177,3 +177,15 @@ func (s *Serf) VerifForceLeave(node string, prune bool) error {
 
 // VerifClock returns the member Lamport clock.
 func (s *Serf) VerifClock() uint64 { return uint64(s.clock.Time()) }
+
+// VerifLeaveTime returns a member's leaveTime (the wall-clock stamp of its last
+// failure / leave as recorded by handleNodeLeave).
+func (s *Serf) VerifLeaveTime(name string) (time.Time, bool) {
+	s.memberLock.RLock()
+	defer s.memberLock.RUnlock()
+	m, ok := s.members[name]
+	if !ok {
+		return time.Time{}, false
+	}
+	return m.leaveTime, true
+}
